@@ -369,6 +369,21 @@ class Facts:
                                     out.append(ch)
             except Exception:
                 pass
+            # a named function handed over as a value (`.map(some_fn)`) plays the part of a closure
+            try:
+                import inline
+                for blk in b.blocks:
+                    t = blk["term"]
+                    if t["k"] != "call":
+                        continue
+                    for a in t["args"]:
+                        if a and a[0] == "f":
+                            for h in self.by_npath.get(norm(a[1]), []):
+                                if h.crate == b.crate and h.kind in ("fn", "assoc_fn") and not h.trait and h not in out \
+                                        and not inline.named_by_rules(h.npath.split("::")[-1]):
+                                    out.append(h)
+            except Exception:
+                pass
             i += 1
         return out
 
